@@ -312,6 +312,7 @@ type recDS struct {
 	Hook    func(op string, key string)
 	PutHook func(key string, value []byte)
 	NoBatch bool // behave as a datastore without batching support
+	FailPut func(key string) bool // a direct put for which this returns true fails (nothing is written)
 }
 
 func newRecDS() *recDS { return &recDS{m: map[string][]byte{}} }
@@ -367,6 +368,9 @@ func (r *recDS) Put(_ context.Context, key datastore.Key, value []byte) error {
 	r.hook("put", key.String())
 	if r.PutHook != nil {
 		r.PutHook(key.String(), value)
+	}
+	if r.FailPut != nil && r.FailPut(key.String()) {
+		return fmt.Errorf("injected datastore write failure")
 	}
 	r.mu.Lock()
 	defer r.mu.Unlock()
